@@ -274,7 +274,7 @@ Qed.
 End B2.
 
 (* ================= Part A: what a check without errors guarantees ================= *)
-From NS Require Import Names NamesProofs NamesScript.
+From NS Require Import Names NamesProofs NamesScript CheckProofs.
 
 Definition noerr (s : cstate) : Prop := errors_count (cs_diags s) = O.
 
@@ -791,4 +791,204 @@ Proof.
     destruct S as (A & _ & _). specialize (A vs Hn He). split.
     + intros p Hp. apply (A p (in_or_app _ _ _ (or_introl Hp))). exact (pos_complete_sent _ Hcs p Hp).
     + apply (A (a, TypeAccount)); [apply in_or_app; right; left; reflexivity|exact Hca].
+Qed.
+
+(* ================= statements, declarations, programs ================= *)
+Lemma statements_sound vs : forall ss s s',
+  check_statements ss s = Ok s' -> forallb stmt_complete ss = true -> noerr s' -> env_typed (cs_declared s) vs ->
+  forall st, In st ss -> stmt_ok vs st.
+Proof.
+  induction ss as [|st0 ss IH]; intros s s' H Hc Hn He st Hin; [contradiction|].
+  cbn [check_statements forallb] in *. apply andb_prop in Hc. destruct Hc as [Hc0 Hcs].
+  destruct (check_statement st0 (set_unbounded_in_send false s)) as [s1| |] eqn:E; cbn [bind] in H; try discriminate.
+  pose proof (vstep_statements _ _ _ H) as (_ & _ & _ & M).
+  pose proof (vstep_statement _ _ _ E) as (_ & D1 & _ & _).
+  destruct Hin as [<-|Hin].
+  - exact (statement_sound _ _ _ vs E Hc0 (noerr_back _ _ M Hn) He).
+  - refine (IH s1 s' H Hcs Hn _ st Hin). rewrite D1. exact He.
+Qed.
+
+Lemma alookup_aset' {A} k (v : A) m k' : alookup k' (aset k v m) = if String.eqb k' k then Some v else alookup k' m.
+Proof.
+  induction m as [|[k0 v0] m IH]; cbn [aset alookup].
+  - destruct (String.eqb k' k); reflexivity.
+  - destruct (String.eqb k k0) eqn:E; cbn [alookup].
+    + apply String.eqb_eq in E. subst k0. destruct (String.eqb k' k); reflexivity.
+    + destruct (String.eqb k' k0) eqn:E'.
+      * apply String.eqb_eq in E'. subst k0. rewrite String.eqb_sym, E. reflexivity.
+      * exact IH.
+Qed.
+
+Lemma alookup_snoc {A} k (v : A) m k' :
+  alookup k' (m ++ [(k, v)]) = match alookup k' m with Some x => Some x | None => if String.eqb k' k then Some v else None end.
+Proof.
+  induction m as [|[k0 v0] m IH]; cbn [app alookup]; [reflexivity|]. destruct (String.eqb k' k0); [reflexivity|exact IH].
+Qed.
+
+Lemma env_typed_declare declared vs name d rt ty v :
+  env_typed declared vs -> amem name declared = false ->
+  vd_type d = Some (rt, ty) -> is_type_allowed ty = true -> value_type v = ty ->
+  env_typed (declared ++ [(name, d)]) (aset name v vs).
+Proof.
+  intros He Hm Ht Ha Hv n d0 Hl. rewrite alookup_snoc in Hl. rewrite alookup_aset'.
+  destruct (alookup n declared) as [d1|] eqn:E1.
+  - injection Hl as <-. assert (String.eqb n name = false) as ->.
+    { destruct (String.eqb n name) eqn:E; [|reflexivity]. apply String.eqb_eq in E. subst n. unfold amem in Hm. rewrite E1 in Hm. discriminate. }
+    exact (He n d1 E1).
+  - destruct (String.eqb n name); [|discriminate]. injection Hl as <-. eexists rt, ty, v. repeat split; assumption.
+Qed.
+
+Lemma mono_fncall f res s s' : check_fn_call_arity f res s = Ok s' -> mono s s'.
+Proof. intros H. exact (proj2 (proj2 (proj2 (vstep_fncall _ _ _ _ H)))). Qed.
+
+(* one declaration: what a check without error says, and what the interpreter then does *)
+Lemma var_decl_sound sb flag raw d s s' vs rs :
+  check_var_decl d s = Ok s' -> vardecl_complete d = true -> noerr s' -> env_typed (cs_declared s) vs ->
+  match vd_name d, vd_type d with
+  | Some (_, name), Some (_, ty) =>
+      match (match vd_origin d with
+             | None => match alookup name raw with
+                       | None => Err (MissingVariableErr name)
+                       | Some r => v <- parse_var ty r ;; Ok (v, rs)
+                       end
+             | Some f => handle_origin sb flag vs ty f rs
+             end) with
+      | Ok (v, _) => env_typed (cs_declared s') (aset name v vs)
+      | Err e => ~ static_err e
+      | Panic _ => True
+      end
+  | _, _ => True
+  end.
+Proof.
+  unfold check_var_decl, vardecl_complete. intros H Hc Hn He.
+  destruct (vd_name d) as [[rn name]|] eqn:En; [|exact I]. destruct (vd_type d) as [[rt ty]|] eqn:Et; [|exact I].
+  set (s1 := if is_type_allowed ty then s else emit rt (DInvalidType ty) s) in H.
+  match type of H with (bind ?m _) = _ => destruct m as [s3| |] eqn:E3 end; cbn [bind] in H; try discriminate.
+  injection H as <-.
+  (* no duplicate *)
+  destruct (amem name (cs_declared s3)) eqn:Edup; [exfalso; exact (not_noerr_emit _ (DDuplicateVariable _) _ eq_refl Hn)|].
+  assert (Hn3 : noerr s3) by exact Hn.
+  (* the type is allowed *)
+  assert (M13 : mono s1 s3 /\ cs_declared s3 = cs_declared s1).
+  { destruct (vd_origin d) as [f|]; [|injection E3 as <-; split; [apply le_n|reflexivity]].
+    match type of E3 with (bind ?m _) = _ => destruct m as [s2| |] eqn:E2 end; cbn [bind] in E3; try discriminate.
+    pose proof (vstep_fncall _ _ _ _ E3) as (_ & D & _ & M).
+    assert (V : vsame s1 s2).
+    { revert E2. destruct (find_builtin (fc_caller f)) as [b|]; [destruct (b_ctx b)|]; try (intros E2; injection E2 as <-; apply vsame_refl).
+      intros E2. eapply vsame_trans; [apply vsame_add_fnres|exact (vsame_assert _ _ _ _ _ E2)]. }
+    destruct V as (_ & D2 & _ & M2). split; [exact (Nat.le_trans _ _ _ M2 M)|congruence]. }
+  destruct M13 as [M13 D13].
+  assert (Hallowed : is_type_allowed ty = true).
+  { destruct (is_type_allowed ty) eqn:Ea; [reflexivity|]. exfalso. unfold s1 in M13.
+    exact (not_noerr_emit _ (DInvalidType _) _ eq_refl (noerr_back _ _ M13 Hn3)). }
+  assert (Hs1 : s1 = s) by (unfold s1; now rewrite Hallowed). rewrite Hs1 in *. clear s1 Hs1.
+  cbn [cs_declared]. rewrite D13.
+  destruct (vd_origin d) as [f|] eqn:Eo.
+  - (* origin *)
+    match type of E3 with (bind ?m _) = _ => destruct m as [s2| |] eqn:E2 end; cbn [bind] in E3; try discriminate.
+    destruct (find_builtin (fc_caller f)) as [b|] eqn:Eb; [destruct (b_ctx b) eqn:Ec|];
+      try (exfalso; injection E2 as <-; exact (fncall_unresolved _ _ _ E3 Hn3)).
+    pose proof (mono_fncall _ _ _ _ E3) as M23.
+    destruct (fncall_resolved _ _ _ _ E3 Hc) as [(A & _ & _) Hlen]. specialize (Hlen Hn3).
+    assert (D2 : cs_declared s2 = cs_declared s).
+    { destruct (vsame_assert _ _ _ _ _ E2) as (_ & D & _ & _). exact D. }
+    assert (He2 : env_typed (cs_declared s2) vs) by (rewrite D2; exact He).
+    pose proof (combine_good vs _ _ (A vs Hn3 He2) Hc Hlen) as F2.
+    (* the declared type agrees with what the origin returns *)
+    assert (Hret : b_return b = TypeAny \/ b_return b = ty).
+    { destruct (assert_has_type_spec _ _ _ _ _ E2) as [[_ Hr]|Hr]; [exact Hr|].
+      exfalso. rewrite Hr in M23. exact (not_noerr_emit _ (DTypeMismatch _ _) _ eq_refl (noerr_back _ _ M23 Hn3)). }
+    assert (Ho : origin_ok vs ty f).
+    { split; [exact Hallowed|].
+      destruct (origin_builtin _ _ Eb Ec) as [(Hname & Hp & Hr)|[(Hname & Hp & Hr)|(Hname & Hp & Hr)]]; rewrite Hp in F2;
+        inversion F2 as [|a0 t0 l0 l0' G0 F3]; subst; inversion F3 as [|a1 t1 l1 l1' G1 F4]; subst; inversion F4; subst.
+      - right. split; [left; exact Hname|]. split; [rewrite Hr in Hret; destruct Hret as [Hx|Hx]; [discriminate|symmetry; exact Hx]|].
+        eexists _, _. repeat split; eassumption.
+      - left. split; [exact Hname|]. eexists _, _. repeat split; eassumption.
+      - right. split; [right; exact Hname|]. split; [rewrite Hr in Hret; destruct Hret as [Hx|Hx]; [discriminate|symmetry; exact Hx]|].
+        eexists _, _. repeat split; eassumption. }
+    pose proof (handle_origin_sound sb flag vs ty f rs Ho) as Hh.
+    destruct (handle_origin sb flag vs ty f rs) as [[v rs']| |]; [|exact Hh|exact I].
+    apply (env_typed_declare _ _ _ _ rt ty v He); [rewrite <- D13; exact Edup|exact Et|exact Hallowed|exact Hh].
+  - (* a plain variable *)
+    destruct (alookup name raw) as [r|]; [|cbn; intros []].
+    pose proof (parse_var_sound ty r Hallowed) as Hp. destruct (parse_var ty r) as [v| |]; cbn [bind]; [|exact Hp|exact I].
+    apply (env_typed_declare _ _ _ _ rt ty v He); [rewrite <- D13; exact Edup|exact Et|exact Hallowed|exact Hp].
+Qed.
+
+Lemma mono_var_decl d s s' : check_var_decl d s = Ok s' -> mono s s'.
+Proof.
+  unfold check_var_decl. intros H.
+  match type of H with (bind ?m _) = _ => destruct m as [s3| |] eqn:E3 end; cbn [bind] in H; try discriminate.
+  injection H as <-.
+  assert (M1 : mono s (match vd_type d with Some (r, t) => if is_type_allowed t then s else emit r (DInvalidType t) s | None => s end)).
+  { destruct (vd_type d) as [[r t]|]; [destruct (is_type_allowed t); [apply le_n|apply mono_emit]|apply le_n]. }
+  assert (M2 : mono (match vd_type d with Some (r, t) => if is_type_allowed t then s else emit r (DInvalidType t) s | None => s end) s3).
+  { destruct (vd_origin d) as [f|]; [|injection E3 as <-; apply le_n].
+    match type of E3 with (bind ?m _) = _ => destruct m as [s2| |] eqn:E2 end; cbn [bind] in E3; try discriminate.
+    refine (Nat.le_trans _ _ _ _ (mono_fncall _ _ _ _ E3)).
+    revert E2. destruct (find_builtin (fc_caller f)) as [b|]; [destruct (b_ctx b)|]; try (intros E2; injection E2 as <-; apply le_n).
+    destruct (vd_name d) as [[rn nm]|]; [destruct (vd_type d) as [[rt ty]|]|]; try (intros E2; injection E2 as <-; apply le_n).
+    intros E2. destruct (vsame_assert _ _ _ _ _ E2) as (_ & _ & _ & M). exact M. }
+  refine (Nat.le_trans _ _ _ (Nat.le_trans _ _ _ M1 M2) _).
+  destruct (vd_name d) as [[r name]|]; [|apply le_n]. destruct (amem name (cs_declared s3)); [apply mono_emit|apply le_n].
+Qed.
+
+Lemma mono_var_decls : forall ds s s', check_var_decls ds s = Ok s' -> mono s s'.
+Proof.
+  induction ds as [|d ds IH]; intros s s' H; cbn [check_var_decls] in H; [injection H as <-; apply le_n|].
+  destruct (check_var_decl d s) as [s1| |] eqn:E; cbn [bind] in H; try discriminate.
+  exact (Nat.le_trans _ _ _ (mono_var_decl _ _ _ E) (IH _ _ H)).
+Qed.
+
+Lemma vars_sound sb flag raw : forall ds s s' vs rs,
+  check_var_decls ds s = Ok s' -> forallb vardecl_complete ds = true -> noerr s' -> env_typed (cs_declared s) vs ->
+  match parse_vars sb flag ds raw vs rs with
+  | Ok (vs', _) => env_typed (cs_declared s') vs'
+  | Err e => ~ static_err e
+  | Panic _ => True
+  end.
+Proof.
+  induction ds as [|d ds IH]; intros s s' vs rs H Hc Hn He; cbn [check_var_decls parse_vars forallb] in *.
+  - injection H as <-. exact He.
+  - apply andb_prop in Hc. destruct Hc as [Hcd Hcs].
+    destruct (check_var_decl d s) as [s1| |] eqn:E; cbn [bind] in H; try discriminate.
+    pose proof (var_decl_sound sb flag raw d s s1 vs rs E Hcd (noerr_back _ _ (mono_var_decls _ _ _ H) Hn) He) as Hd.
+    destruct (vd_name d) as [[rn name]|]; [|exact I]. destruct (vd_type d) as [[rt ty]|]; [|exact I].
+    match type of Hd with match ?m' with _ => _ end =>
+      match goal with |- match (bind ?m _) with _ => _ end => change m with m' end;
+      destruct m' as [[v rs']| |]
+    end; cbn [bind]; [|exact Hd|exact I].
+    exact (IH s1 s' _ rs' H Hcs Hn Hd).
+Qed.
+
+(* ---- C17, whole scripts ---- *)
+Theorem check_program_sound p s raw sb flag :
+  program_complete p = true ->
+  check_default p [] = Ok s -> errors_count (cs_diags s) = O ->
+  nonstatic (run_program p raw sb flag).
+Proof.
+  unfold program_complete, check_default, check_program. intros Hc H Hn.
+  apply andb_prop in Hc. destruct Hc as [Hcv Hcs].
+  destruct (check_var_decls (p_vars p) (initial_cstate [])) as [s1| |] eqn:E1; cbn [bind] in H; try discriminate.
+  destruct (check_statements (p_stmts p) s1) as [s2| |] eqn:E2; cbn [bind] in H; try discriminate.
+  injection H as <-.
+  assert (Hn2 : noerr s2).
+  { unfold noerr. rewrite fold_emit_diags, errors_count_app in Hn. lia. }
+  pose proof (vstep_statements _ _ _ E2) as (_ & _ & _ & M12).
+  assert (Hn1 : noerr s1) by exact (noerr_back _ _ M12 Hn2).
+  assert (He0 : env_typed (cs_declared (initial_cstate [])) []) by (intros n d Hl; discriminate).
+  pose proof (vars_sound sb flag raw (p_vars p) (initial_cstate []) s1 [] (mkrstate [] [] 0 []) E1 Hcv Hn1 He0) as Hv.
+  unfold run_program, prepare.
+  destruct (parse_vars sb flag (p_vars p) raw [] (mkrstate [] [] 0 [])) as [[vs rs1]| |]; cbn [bind nonstatic]; [|exact Hv|exact I].
+  pose proof (statements_sound vs _ _ _ E2 Hcs Hn2 Hv) as Hst.
+  apply nonstatic_bind.
+  - apply nonstatic_bind; [apply ns_find_queries_stmts, Hst|]. intros q _.
+    apply nonstatic_bind; [|intros; exact I].
+    destruct (run_balances_query sb _) as [x|msg|w]; cbn [lift_store nonstatic]; [exact I|intros []|exact I].
+  - intros [vs' rs2] Hp.
+    assert (vs' = vs) as ->.
+    { destruct (find_queries_stmts vs (p_stmts p) (rs_query rs1)); cbn [bind] in Hp; try discriminate.
+      destruct (lift_store QueryBalanceError _); cbn [bind] in Hp; try discriminate. now injection Hp as <- _. }
+    apply nonstatic_bind; [apply ns_run_stmts, Hst|]. intros [ps st] _. exact I.
 Qed.
